@@ -363,7 +363,7 @@ Definition in_domain (c : call) : bool :=
         | None => true
         | Some j => (j =? Nat.min (length w1) (length w2))%nat
         end))
-  | FSubseq => not_nil (c_seq c)                                       (* KF nil *)
+  | FSubseq => true
   | FReplace =>
       bounds2_ok c &&
       ((s_start c <? length l1)%nat || (start_absent (c_start c) && start_absent (c_end c) && (length l1 =? 0)%nat) || negb (not_nil (c_seq c))) &&
@@ -375,20 +375,18 @@ Definition in_domain (c : call) : bool :=
   | FReverse | FNreverse => true
   | FSort | FStableSort => test_strict (c_test c)
   | FMerge =>
-      test_strict (c_test c) && not_nil (c_seq c) && not_nil (c_seq2 c) &&          (* KF nil; KF ties taken from sequence-2 *)
+      test_strict (c_test c) &&                                                    (* KF ties taken from sequence-2 *)
       forallb (fun x => forallb (fun y => negb (key_app (c_key c) x =? key_app (c_key c) y)) l2) l1
   | FUnion | FIntersection => is_list (c_seq c) && is_list (c_seq2 c) && test_equivalence (c_test c)
   | FSetDifference => is_list (c_seq c) && is_list (c_seq2 c) && not_test_not (c_test c)
-  | FSubsetp => is_list (c_seq c) && is_list (c_seq2 c) && not_nil (c_seq c) && not_nil (c_seq2 c) && not_test_not (c_test c)
-  | FEvery | FNotany | FNotevery =>
-      not_nil (c_seq c) && ((c_nseq c =? 1)%nat || not_nil (c_seq2 c)) && not_test_not (c_test c)
+  | FSubsetp => is_list (c_seq c) && is_list (c_seq2 c) && not_test_not (c_test c)
+  | FEvery | FNotany | FNotevery => not_test_not (c_test c)
   | FSome =>
-      not_nil (c_seq c) && ((c_nseq c =? 1)%nat || not_nil (c_seq2 c)) && not_test_not (c_test c) &&
+      not_test_not (c_test c) &&
       (negb (c_flag c) || ((c_nseq c =? 1)%nat && negb (existsb (pred_app (c_pred c)) l1)))   (* KF some returns t *)
-  | FMap => not_nil (c_seq c) && ((c_nseq c =? 1)%nat || not_nil (c_seq2 c))
+  | FMap => true
   | FMapcar => is_list (c_seq c) && ((c_nseq c =? 1)%nat || is_list (c_seq2 c))
   | FReduce =>
-      not_nil (c_seq c) &&
       (start_absent (c_start c) || (s_start c <? s_end c l1)%nat) &&              (* KF :start = end *)
       (negb (s_start c =? s_end c l1)%nat || match c_init c with Some _ => true | None => false end)   (* KF (reduce '+ '()) *)
   | FConcatenate => true
